@@ -3,6 +3,7 @@ module github.com/cockroachdb/pebble/verifsim
 go 1.25.3
 
 require (
+	github.com/cockroachdb/errors v1.11.3
 	github.com/cockroachdb/pebble v0.0.0
 	golang.org/x/tools v0.39.0
 )
@@ -16,7 +17,6 @@ require (
 	github.com/beorn7/perks v1.0.1 // indirect
 	github.com/cespare/xxhash/v2 v2.3.0 // indirect
 	github.com/cockroachdb/crlib v0.0.0-20251122031428-fe658a2dbda1 // indirect
-	github.com/cockroachdb/errors v1.11.3 // indirect
 	github.com/cockroachdb/logtags v0.0.0-20230118201751-21c54148d20b // indirect
 	github.com/cockroachdb/redact v1.1.5 // indirect
 	github.com/cockroachdb/swiss v0.0.0-20251224182025-b0f6560f979b // indirect
